@@ -200,3 +200,30 @@ macro_rules! c16_radix_same {
         });
     };
 }
+
+/// (i') equal width, two digit types, mul / div / rem with a CONCRETE second operand (given as little-endian BYTES, so that both
+/// representations are built from the same constant) and a fully symbolic first operand: products and Knuth division by constants,
+/// decided for all first operands at 32..128 bits, where the two-symbolic-operand miter stops at 16 bits.
+#[macro_export]
+macro_rules! c16_same_width_cmul {
+    ($name:ident, $unw:expr, $A:ty, $AD:ty, $AN:expr, $B:ty, $BD:ty, $BN:expr, $BYTES:expr, [$($yb:expr),*]) => {
+        $crate::harness!($name, $unw, {
+            use $crate::util::*;
+            use bnum::cast::As;
+            let (x, _) = <$A as BN<$AD, $AN>>::any();
+            let yb: [u8; $BYTES] = [$($yb),*];
+            let yd: [$AD; $AN] = to_digits::<$AD, $AN, $BYTES>(&yb);
+            let yd2: [$BD; $BN] = to_digits::<$BD, $BN, $BYTES>(&yb);
+            let y = <$A as BN<$AD, $AN>>::mk(yd);
+            let y2 = <$B as BN<$BD, $BN>>::mk(yd2);
+            let x2: $B = x.as_();
+            let same = |p: $A, q: $B| -> bool { let c: $B = p.as_(); deq(&c.dg(), &q.dg()) };
+            let (v, f) = x.overflowing_mul(y); let (v2, f2) = x2.overflowing_mul(y2); assert!(same(v, v2) && f == f2, "mul");
+            match (x.checked_div(y), x2.checked_div(y2)) { (Some(p), Some(q)) => assert!(same(p, q), "div"), (None, None) => {}, _ => assert!(false, "div: Some/None differs") }
+            match (x.checked_rem(y), x2.checked_rem(y2)) { (Some(p), Some(q)) => assert!(same(p, q), "rem"), (None, None) => {}, _ => assert!(false, "rem: Some/None differs") }
+            match (y.checked_div(x), y2.checked_div(x2)) { (Some(p), Some(q)) => assert!(same(p, q), "concrete dividend / symbolic divisor"), (None, None) => {}, _ => assert!(false, "div: Some/None differs") }
+            $crate::reach!(f, "overflowing product");
+            $crate::reach!(!f, "representable product");
+        });
+    };
+}
